@@ -43,7 +43,8 @@ SPEC = {
         "run_process:timeout-sigterm-ignored:*", "run_process_repeat:repeat:*",
         "communicate:no-deadline:cat", "communicate:deadline:cat", "communicate:cat:P=1M", "communicate:deadline-expires:*",
         "lifecycle:*", "plan:none", "plan:waitpid:settle", "plan:poll:settle", "plan:poll:20ms", "plan:read:*", "plan:write:*",
-        "run_process:check=1:*", "run_process:check=0:stdin=nullptr:*",
+        "run_process:check=1:*", "run_process:check=0:stdin=nullptr:*", "monitor:witness-selftest:deadlock-detected",
+        "monitor:reaped:ECHILD", "monitor:fds:conserved*", "communicate:stderr=pipe", "communicate:stderr=devnull",
     ],
     "exhaustive": {"quick": False, "thorough": False},
     "exhaustive_note": "thorough tier: the full 10x10 (payload, volume) grid for every behaviour of both APIs; the delay-plan "
@@ -52,7 +53,7 @@ SPEC = {
         "Linux /proc/<pid>/{syscall,stat,wchan,fd,io} readable for own descendants (checked in this VM)",
         "SIGPIPE is ignored in the harness (any pipe-using program must), so EPIPE is an error return",
         "run_process' last argument is taken in microseconds (the implementation's name; the header calls it timeout_secs)",
-        "communicate is given /dev/null as the child's stderr: it never reads stderr, so a child filling a stderr pipe is outside its contract",
+        "communicate never reads stderr, so a child filling a stderr pipe is outside its contract: the child's stderr is a pipe only when the script writes <= 16 KiB there, else /dev/null",
         "a hang without the state-based witness (both sides blocked on each other's pipes, no byte moved for 100 samples) is "
         "reported as inconclusive, never as a violation",
     ],
